@@ -249,7 +249,26 @@ def check_rank_layout(ctx, F, tag):
         p_ok = None
         if len(pushes_) == 1 and adds:
             p_ok = all(nb.dominates(pushes_[0][0], abi) and abi != pushes_[0][0] for abi, _ in adds)
-        parts = {"slot k filled by << (k * %d)" % RRB: s_ok, "last slot masked with low_set(%d)" % ((WPB - 1) * RRB): m_ok, "sample pushed before ones += block_ones": p_ok}
+        # the two running counts (ones before the block, ones inside the block) only ever grow by what was counted: each is set to 0
+        # and otherwise assigned `itself + ..` -- a count clamped "to fit its field" is then also the count carried into every later sample
+        a_ok = None
+        if adds:
+            accs = set()
+            for _, st in adds:
+                for k_ in ("a", "b"):
+                    accs.add(core(nb.term_of_operand(st["rv"][k_]))[1])
+            a_ok = True
+            for l_ in accs:
+                for d in nb.defs().get(l_, []):
+                    if d[2] != "assign":
+                        a_ok = False
+                        continue
+                    t_ = core(fold_consts(nb.term_of_rvalue(d[3])))
+                    grows = t_[0] == "bin" and t_[1] == "Add" and any(core(x)[:2] == ("var", l_) for x in (t_[2], t_[3]))
+                    if not (t_[:2] == ("const", 0) or grows):
+                        a_ok = False
+        parts = {"slot k filled by << (k * %d)" % RRB: s_ok, "last slot masked with low_set(%d)" % ((WPB - 1) * RRB): m_ok, "sample pushed before ones += block_ones": p_ok,
+                 "running counts only grow": a_ok}
         verdict = False if any(v is False for v in parts.values()) else (None if any(v is None for v in parts.values()) else True)
         ctx.ob("C01.R4.rank-store-read-agreement", RS + "new" + tag, loc(nb.raw["span"]), verdict, "sibling-agreement", "; ".join("%s: %s" % kv for kv in parts.items()))
     for qn in ("rank", "rank_unchecked"):
